@@ -329,7 +329,9 @@ def _divmod(chk, ctx) -> None:
             if not sinks:
                 # allowed only when the path skips a part that is zero: the test must be on the part itself
                 lv = _loop_var_term(p, loop)
-                part = T.add(Q, R) if any(_is_first_guard(c, lv, it) for c in conds) else Q
+                # the skipped element is known not to be the first only if the path says so; otherwise its part includes the remainder
+                not_first = any(_is_first_guard(T.mk_not(c), lv, it) for c in conds)
+                part = Q if not_first else T.add(Q, R)
                 if T.mk_not(T.truthy(part)) not in conds:
                     quo_each = False
                     detail = f'a part is not handed out although it need not be zero (the skip is not a test of the part {T.show(part)})'
@@ -926,6 +928,13 @@ def _terminal(chk, ctx) -> None:
                 n += 1
                 ok &= dv == T.neg(('sub', ('self', 'bets'), idx))
     chk.ob('C01.terminal', 'State.pull_chips', ok and n > 0, fi.loc, 'pulling takes the whole bet (it is left at exactly 0)')
+    # ... and that step is never skipped: when the last pot is pushed (or there was none to push) the pulling phase begins
+    from .c07 import phase_calls
+    fi = ctx.sfi('_end_chips_pushing')
+    targets = [tuple(c.value[1] for c in phase_calls(p)) for p in ctx.paths(fi) if not p.raised]
+    chk.ob('C01.terminal', 'State._end_chips_pushing', bool(targets) and all(t == ('_begin_chips_pulling',) for t in targets), fi.loc,
+           'after the pots (if any) are pushed the chips still in front of the players are always pulled: a walk leaves the winner\'s own blind there',
+           got=sorted(set(targets)))
     # payoffs sum: every stack change is mirrored (C01.mirror) and the only chips not returned are the raked parts
     fi = ctx.sfi('_begin_chips_pushing')
     queued = set()
